@@ -23,8 +23,9 @@ enum Op {
 }
 
 /// A panic is acceptable only where the u8 probe distance can overflow (debug build): that needs
-/// a cluster of more than 256 stored elements, hence more than 256 distinct inserted elements.
-/// The model must then report the overflow as well (its line is PANIC too).
+/// a cluster of more than 256 stored entries, hence more than 256 distinct (element, hash) pairs
+/// in the history (theorem C02S_rh_total_small).  The model must then report the overflow as well
+/// (its line is PANIC too).
 fn panic_ok(case: &str) -> bool {
     let t = toks(case);
     if t.is_empty() || t[0] == "S" {
@@ -34,7 +35,7 @@ fn panic_ok(case: &str) -> bool {
     let mut i = 1;
     while i < t.len() {
         if t[i] == "i" {
-            s.insert(t[i + 1]);
+            s.insert((t[i + 1], t[i + 2]));
             i += 3;
         } else {
             i += 2;
@@ -107,12 +108,15 @@ fn history(cap: Option<usize>, ops: &[Op]) -> Res {
     let mut fails = vec![];
     // identity classes by address
     let mut first_call: HashMap<usize, usize> = HashMap::new();
-    // oracle state
+    // oracle state.  The table compares the hash first and the element second, so what it stores is
+    // the set of distinct (element, hash) PAIRS of the history: a stream whose hashes are not a
+    // function of the element is a consistent stream over pairs (hash of a pair = its second
+    // component).  Set semantics is therefore checked on pairs, for every stream.
     let mut handed: Vec<(&'static u64, u64)> = vec![]; // every reference handed out, with the element it was handed out for
-    let mut addr_of: HashMap<u64, usize> = HashMap::new(); // element -> address (first one)
-    let mut elem_at: HashMap<usize, u64> = HashMap::new(); // address -> element
+    let mut addr_of: HashMap<(u64, u64), usize> = HashMap::new(); // pair -> address
+    let mut pair_at: HashMap<usize, (u64, u64)> = HashMap::new(); // address -> pair
     let mut hash_of: HashMap<u64, u64> = HashMap::new();
-    let mut consistent = true;
+    let mut consistent = true; // statistics only
     let mut expect_hits = 0u64;
     for (k, op) in ops.iter().enumerate() {
         match *op {
@@ -128,23 +132,21 @@ fn history(cap: Option<usize>, ops: &[Op]) -> Res {
                 if *r != e {
                     fails.push(format!("call {k}: get_or_insert({e}) returned a reference that reads {}", *r));
                 }
-                if consistent {
-                    match addr_of.get(&e) {
-                        Some(&a0) => {
-                            expect_hits += 1;
-                            if a0 != a {
-                                fails.push(format!("call {k}: element {e} (hash {h}) was given a second address (duplicate node)"));
-                            }
-                        }
-                        None => {
-                            if let Some(e2) = elem_at.get(&a) {
-                                fails.push(format!("call {k}: new element {e} shares its address with element {e2}"));
-                            }
-                            addr_of.insert(e, a);
+                match addr_of.get(&(e, h)) {
+                    Some(&a0) => {
+                        expect_hits += 1;
+                        if a0 != a {
+                            fails.push(format!("call {k}: element {e} (hash {h}) was given a second address (duplicate node)"));
                         }
                     }
+                    None => {
+                        if let Some(p2) = pair_at.get(&a) {
+                            fails.push(format!("call {k}: new element {e} (hash {h}) shares its address with {p2:?}"));
+                        }
+                        addr_of.insert((e, h), a);
+                        pair_at.insert(a, (e, h));
+                    }
                 }
-                elem_at.entry(a).or_insert(e);
                 handed.push((r, e));
             }
             Op::Get(h) => {
@@ -152,7 +154,7 @@ fn history(cap: Option<usize>, ops: &[Op]) -> Res {
                 match r {
                     None => {
                         line.push_str(" N");
-                        if consistent && hash_of.values().any(|&x| x == h) {
+                        if addr_of.keys().any(|&(_, x)| x == h) {
                             fails.push(format!("call {k}: get_by_hash({h}) found nothing although an element with that hash was inserted"));
                         }
                     }
@@ -160,14 +162,16 @@ fn history(cap: Option<usize>, ops: &[Op]) -> Res {
                         let a = r as *const u64 as usize;
                         match first_call.get(&a) {
                             Some(c) => line.push_str(&format!(" {c}")),
-                            None => {
-                                line.push_str(" ?");
-                                fails.push(format!("call {k}: get_by_hash({h}) returned an address never handed out"));
-                            }
+                            None => line.push_str(" ?"),
                         }
                         expect_hits += 1;
-                        if consistent && hash_of.get(r) != Some(&h) {
-                            fails.push(format!("call {k}: get_by_hash({h}) returned element {} whose hash is {:?}", *r, hash_of.get(r)));
+                        match pair_at.get(&a) {
+                            Some(&(e2, h2)) => {
+                                if h2 != h || e2 != *r {
+                                    fails.push(format!("call {k}: get_by_hash({h}) returned the node of element {e2} stored under hash {h2} (reads {})", *r));
+                                }
+                            }
+                            None => fails.push(format!("call {k}: get_by_hash({h}) returned an address never handed out")),
                         }
                     }
                 }
@@ -182,13 +186,11 @@ fn history(cap: Option<usize>, ops: &[Op]) -> Res {
         }
     }
     let (nn, hits) = (tbl.num_nodes(), tbl.hits());
-    if consistent {
-        if nn != addr_of.len() {
-            fails.push(format!("num_nodes = {nn} but {} distinct elements were inserted", addr_of.len()));
-        }
-        if hits as u64 != expect_hits {
-            fails.push(format!("hits = {hits} but {expect_hits} calls found an existing element"));
-        }
+    if nn != addr_of.len() {
+        fails.push(format!("num_nodes = {nn} but {} distinct (element, hash) pairs were inserted", addr_of.len()));
+    }
+    if hits as u64 != expect_hits {
+        fails.push(format!("hits = {hits} but {expect_hits} calls found an existing element"));
     }
     line.push_str(&format!(" n={nn} h={hits} order="));
     // the slot order of the stored elements (iter() walks the slot array): makes the layout, hence
@@ -201,7 +203,7 @@ fn history(cap: Option<usize>, ops: &[Op]) -> Res {
     if ord.len() != nn {
         fails.push(format!("iter() yields {} elements but num_nodes = {nn}", ord.len()));
     }
-    let distinct = elem_at.len();
+    let distinct = addr_of.len();
     drop(handed);
     drop(tbl);
     Res { line: line.trim().to_string(), fails, grew: 10 * nn > 7 * cap0, hits: hits as u64, distinct, consistent }
